@@ -89,6 +89,9 @@ type StmtSel struct {
 	From    int     `json:"from"`
 	Var     []VarOp `json:"var,omitempty"`
 	Corrupt int     `json:"corrupt,omitempty"` // 0 = none
+	// Extra > 0: the statement under test is a relative of the pool statement - the pool statement with one
+	// top-level clause added (relative_test.go); 0 = the pool statement itself.
+	Extra int `json:"extra,omitempty"`
 }
 
 // ---- resolved configuration ----
@@ -397,6 +400,9 @@ type xInfo struct {
 	text string
 	info poolInfo
 	from int // pool index it was made from; -1 when corrupted
+	// extra names the clause that was added to pool statement `from` ("" = none): the statement is a
+	// structurally different relative of that pool statement
+	extra string
 }
 
 func refQuery(ruleText string, rulePool poolInfo, x xInfo, pg bool, handlerKind string) tri {
@@ -573,6 +579,19 @@ func refPattern(p rPattern, src poolInfo, x xInfo) tri {
 	}
 	if p.d.Whole != "" {
 		return refWhole(p.d.Whole, x.info.kind)
+	}
+	if p.from == x.from && x.extra != "" {
+		// the pattern was made from the statement WITHOUT the added clause and has no placeholder for it.
+		// Exception: %%WHERE%% in a SELECT stands for the WHERE clause and whatever follows it - acra's own
+		// TestConfigurationProvider expects `... FROM EMPLOYEE %%WHERE%%` (configs/acra-censor.example.yaml)
+		// to deny `... WHERE CITY = 'Seattle' ORDER BY EMP_ID`; clauses behind WHERE are not asserted then.
+		if has(p.d.Applied, "where") {
+			switch x.extra {
+			case "select+limit", "select+order-by", "select+for-update", "select+having", "select+group-by":
+				return unsure
+			}
+		}
+		return noMatch
 	}
 	if p.from == x.from {
 		if p.d.Printed && !src.faithful {
